@@ -42,6 +42,40 @@ type c02Gen struct {
 	// optional interfaces one request in four is of a kind whose handling depends on them.
 	opt   c02Opt
 	alloc bool // WithAllocator / WithRSAllocator (programs outside the big-reply family, whose configuration is cfg)
+	// pred: the family of programs that name handles BEFORE their HANDLE reply was received. Both servers number
+	// their handles 1, 2, 3 …, so a pipelining client can name the handle an OPEN is going to get right behind that
+	// OPEN — or before it, or a number that is never handed out (gOp.Nx). One request in four is an OPEN / OPENDIR
+	// inside the pipeline (of an object of its own, gPredObj; existing, missing, of the wrong kind) or a READ, WRITE,
+	// FSTAT, FSETSTAT, READDIR, CLOSE on such a number; nOpens counts the OPENs drawn so far.
+	pred   bool
+	nOpens int
+}
+
+func c02IsOpen(k string) bool { return k == "open" || k == "openrw" || k == "openw" || k == "opendir" }
+
+// predOp draws a request of the pred family.
+func (g *c02Gen) predOp(i int) (gOp, bool) {
+	if g.nOpens == 0 || g.rng.Intn(3) == 0 {
+		k := []string{"open", "open", "openrw", "openw", "opendir"}[g.rng.Intn(5)]
+		p := fmt.Sprintf("q%d", i)
+		switch {
+		case g.rng.Intn(4) == 0:
+			p = fmt.Sprintf("missingq%d", i)
+		case k == "opendir" && g.rng.Intn(4) != 0:
+			p = fmt.Sprintf("dq%d", i)
+		}
+		return gOp{K: k, P: p}, true
+	}
+	o := gOp{K: []string{"read", "read", "write", "write", "fstat", "fsetstat", "readdir", "close"}[g.rng.Intn(8)], Nx: 1 + g.rng.Intn(g.nOpens+1)}
+	switch o.K {
+	case "read":
+		o.Off, o.Len = int64(i)*1001, []uint32{0, 1, 300, 4096}[g.rng.Intn(4)]
+	case "write":
+		o.Off, o.Len = int64(i)*4096, []uint32{0, 1, 100}[g.rng.Intn(3)]
+	case "fsetstat":
+		o.AF = []uint32{0, wire.APerm}[g.rng.Intn(2)]
+	}
+	return o, true
 }
 
 // c02Opt is what a server is started with besides c02SrvCfg: ReadOnly() (os-backed), WithServerWorkingDirectory /
@@ -356,6 +390,20 @@ func (g *c02Gen) op(i int) gOp {
 			if o.H != "" && o.H != "bogus" {
 				g.used[o.H] = true
 			}
+			if g.pred && c02IsOpen(o.K) {
+				// every OPEN of such a program is given an object of its own: which requests reach the handle it hands
+				// out is left to the schedule
+				switch {
+				case gPredObj(o.P) || strings.HasPrefix(o.P, "missingq"):
+				case gIsMissing(o.P):
+					o.P = fmt.Sprintf("missingq%d", i)
+				case o.K == "opendir" && o.P == "sd":
+					o.P = fmt.Sprintf("dq%d", i)
+				default:
+					o.P = fmt.Sprintf("q%d", i)
+				}
+				g.nOpens++
+			}
 			if gSimKind(o.K) != 'w' {
 				ex := ""
 				if o.K == "close" {
@@ -386,6 +434,9 @@ func (g *c02Gen) try(i int) (gOp, bool) {
 	}
 	if !g.opt.Ifaces.zero() && g.rng.Intn(4) == 0 {
 		return g.ifaceOp(i)
+	}
+	if g.pred && g.rng.Intn(4) == 0 {
+		return g.predOp(i)
 	}
 	r := g.rng.Intn(104)
 	miss := g.rng.Intn(4) == 0
@@ -788,6 +839,35 @@ func c02FixedIfaces() []gProg {
 	}
 }
 
+// c02FixedPred are hand-written pipelines that name a handle before its HANDLE reply was received: the number the
+// OPEN / OPENDIR in front of them is about to be given (requests sent one by one: the READ / WRITE arrives at a
+// read/write worker while the command worker is inside the handler of that OPEN — succeeding or failing), a number
+// given later in the pipeline, a number never given.
+func c02FixedPred(server string) []gProg {
+	mk := func(ops ...gOp) gProg {
+		p := gProg{Server: server, Ops: ops}
+		for i := range p.Ops {
+			p.Ops[i].ID = uint32(0x55000000 + 5*(len(ops)-i))
+		}
+		p.Handles = gUsedHandles(p)
+		return p
+	}
+	rd := func(nx int, off int64) gOp { return gOp{K: "read", Nx: nx, Off: off, Len: 64} }
+	wr := func(nx int, off int64) gOp { return gOp{K: "write", Nx: nx, Off: off, Len: 10} }
+	return []gProg{
+		mk(gOp{K: "open", P: "q0"}, rd(1, 0), wr(1, 4096), rd(1, 64)),
+		mk(gOp{K: "openw", P: "q0"}, wr(1, 0), rd(1, 0), wr(1, 4096)),
+		mk(gOp{K: "openrw", P: "q0"}, rd(1, 0), wr(1, 70000)),
+		mk(gOp{K: "open", P: "missingq0"}, rd(1, 0), wr(1, 0), gOp{K: "close", Nx: 1}),
+		mk(gOp{K: "openw", P: "missingq0"}, wr(1, 0), rd(1, 0)),
+		mk(gOp{K: "opendir", P: "dq0"}, rd(1, 0), gOp{K: "readdir", Nx: 1}, gOp{K: "close", Nx: 1}, gOp{K: "readdir", Nx: 1}),
+		mk(gOp{K: "open", P: "q0"}, gOp{K: "fstat", Nx: 1}, gOp{K: "fsetstat", Nx: 1, AF: wire.APerm}, rd(1, 0), gOp{K: "close", Nx: 1}, rd(1, 64)),
+		mk(rd(1, 0), gOp{K: "open", P: "q1"}, rd(1, 64), gOp{K: "openw", P: "q3"}, wr(2, 0), rd(1, 128), gOp{K: "close", Nx: 2}, gOp{K: "close", Nx: 1}),
+		mk(gOp{K: "read", H: "r0", Off: 0, Len: 100}, gOp{K: "open", P: "q1"}, rd(1, 0), rd(2, 0), gOp{K: "write", H: "w0", Off: 0, Len: 10}, wr(1, 0)),
+		mk(gOp{K: "stat", P: "s0"}, gOp{K: "opendir", P: "missingq1"}, gOp{K: "readdir", Nx: 1}, rd(1, 0), gOp{K: "open", P: "q4"}, rd(2, 0), rd(1, 0)),
+	}
+}
+
 // c02WithOpt is p for a server started with d (paths relative where there is a working directory, every fourth
 // path request in the absolute form nonetheless).
 func c02WithOpt(p gProg, d c02Deal) gProg {
@@ -844,7 +924,7 @@ func c02Summarise(run *gRun, job c02Job, modelOK bool) gSummary {
 		if rt.Sim.Gate != "" {
 			held++
 		}
-		if rt.HKind == "bogus" || rt.HKind == "stale" || rt.Mismatch || rt.Denied || rt.WantCode != 0 || gIsMissing(p.Ops[k].P) {
+		if rt.HKind == "bogus" || rt.HKind == "stale" || rt.HKind == "predicted" || rt.Mismatch || rt.Denied || rt.WantCode != 0 || gIsMissing(p.Ops[k].P) {
 			failing = true
 		}
 	}
@@ -886,6 +966,10 @@ func c02Summarise(run *gRun, job c02Job, modelOK bool) gSummary {
 			kind += "/wrong-kind-handle"
 		case run.Routes != nil && (run.Routes[k].HKind == "bogus" || run.Routes[k].HKind == "stale"):
 			kind += "/" + run.Routes[k].HKind + "-handle"
+		case o.Nx > 0:
+			kind += "/handle-named-before-its-HANDLE-reply"
+		case c02IsOpen(o.K) && gPredObj(o.P):
+			kind += "/inside-the-pipeline-with-requests-naming-its-handle-in-advance"
 		case gIsMissing(o.P):
 			kind += "/missing-path"
 		case o.Pad > 0:
@@ -939,6 +1023,23 @@ func c02Summarise(run *gRun, job c02Job, modelOK bool) gSummary {
 				large++
 			}
 		}
+		for k, o := range p.Ops {
+			if o.Nx > 0 {
+				fr := run.Frames[k]
+				t := gTypeName(fr.Typ)
+				if fr.Typ == wire.Status {
+					st := gParseStatus(fr)
+					msg := st.Msg
+					if i := strings.Index(msg, " /"); i >= 0 { // "read <scratch path>: <reason>"
+						if j := strings.LastIndex(msg, ": "); j > i {
+							msg = msg[:i] + " <path>" + msg[j:]
+						}
+					}
+					t += fmt.Sprintf("/code=%d/%s", st.Code, msg)
+				}
+				hist("handle-named-before-its-HANDLE-reply/" + p.Server + "/" + o.K + "->" + t)
+			}
+		}
 		if large > 0 && len(p.Ops) > 1 {
 			s.Nontrivial = true // a reply larger than any a default server sends, among other replies
 		}
@@ -978,7 +1079,7 @@ func c02SizeBucket(n int) string {
 
 func checkC02(c *lib.Ctx) {
 	r := c.R
-	r.Rule = "options: every program is generated for and run on a server started with an option combination dealt from a shuffled deck — os-backed: ReadOnly() x WithServerWorkingDirectory x WithAllocator; request server: WithStartDirectory x WithRSAllocator x handler set, where the handler set lacks optional interfaces (quick: none, each of StatVFSFileCmder / PosixRenameFileCmder / LstatFileLister / OpenFileWriter / ReadlinkFileLister / RealPathFileLister alone, RealPath in its legacy signature, all lacking; thorough: all 96 combinations). On a read-only server handles are opened for reading only, the WRITEs go to those, and every modifying request (WRITE, SETSTAT, FSETSTAT, REMOVE, MKDIR, RMDIR, RENAME, SYMLINK, posix-rename, hardlink, OPEN with write/creat/trunc) must be answered PERMISSION_DENIED, once, in its turn, without any modifying call on an opened file, while the calls of the served requests around it are held; with a working / start directory the paths are sent relative (one in four absolute); without StatVFSFileCmder statvfs must be answered OP_UNSUPPORTED without a handler call, without the other interfaces the request must reach exactly the fallback method (Filecmd as Rename, Filelist as Stat / Readlink, Filewrite) once and its reply must follow that call's result; hand-written pipelines for read-only servers (18, under working directory x allocator) and for the ten handler sets (6, all orders up to 12 / 120). programs: hand-written depth-4 pipelines, PRNG pipelines of 4…6 mutually independent requests (all 24/120/720 completion orders) and PRNG-drawn pipelines (depth 1…30) over 27 request kinds on open, closed-before, never-issued and wrong-kind handles and on existing/missing paths, ids sequential, descending, random or all equal; every instrumented call (request server: all handler methods; os-backed server: ReadAt/WriteAt/Stat/Readdir/Chmod of the opened files) is held on a gate and the harness opens the gates in a chosen order: ALL feasible completion orders for the small programs, PRNG-chosen orders (uniform, fifo, lifo, earliest-held-longest) for the deep ones, plus un-gated pipelined runs. Big-reply family: servers started with WithAllocator / WithRSAllocator on or off and WithMaxTxPacket / WithRSMaxTxPacket in {default, 65536, 262131, 262132 (longest DATA payload inside / outside an allocator page), 262135, 262136 (DATA reply frame of exactly / one over 256 KiB), 262144, 524288}; five hand-written pipelines per configuration (all completion orders in thorough, the first 6 in quick, on 8 of the 16 configurations) and PRNG pipelines on all 16 in which one request in five has a reply of the largest size: READ of max-tx-1, max-tx, max-tx+1, the page/frame boundary lengths, 300000 and 2^32-1 bytes on a 600000-byte file, READDIR of 120 names of 1400 bytes (request server) / 130 names of 250 bytes (os-backed), REALPATH and READLINK of paths of 131060, 131061 (NAME reply just fits 256 KiB), 131062, 140000, 200000 and 262129 bytes, READLINK of a 4000-byte target, mixed with the ordinary requests. A case = (server, configuration, program, completion order); non-trivial = at least two calls were held at the same time, a failing request is in the stream, or a reply longer than a default server's longest stands among other replies; distinct by (configuration, options, program shape, read lengths, order)"
+	r.Rule = "options: every program is generated for and run on a server started with an option combination dealt from a shuffled deck — os-backed: ReadOnly() x WithServerWorkingDirectory x WithAllocator; request server: WithStartDirectory x WithRSAllocator x handler set, where the handler set lacks optional interfaces (quick: none, each of StatVFSFileCmder / PosixRenameFileCmder / LstatFileLister / OpenFileWriter / ReadlinkFileLister / RealPathFileLister alone, RealPath in its legacy signature, all lacking; thorough: all 96 combinations). On a read-only server handles are opened for reading only, the WRITEs go to those, and every modifying request (WRITE, SETSTAT, FSETSTAT, REMOVE, MKDIR, RMDIR, RENAME, SYMLINK, posix-rename, hardlink, OPEN with write/creat/trunc) must be answered PERMISSION_DENIED, once, in its turn, without any modifying call on an opened file, while the calls of the served requests around it are held; with a working / start directory the paths are sent relative (one in four absolute); without StatVFSFileCmder statvfs must be answered OP_UNSUPPORTED without a handler call, without the other interfaces the request must reach exactly the fallback method (Filecmd as Rename, Filelist as Stat / Readlink, Filewrite) once and its reply must follow that call's result; hand-written pipelines for read-only servers (18, under working directory x allocator) and for the ten handler sets (6, all orders up to 12 / 120). programs: hand-written depth-4 pipelines, PRNG pipelines of 4…6 mutually independent requests (all 24/120/720 completion orders) and PRNG-drawn pipelines (depth 1…30) over 27 request kinds on open, closed-before, never-issued and wrong-kind handles and on existing/missing paths, ids sequential, descending, random or all equal; every instrumented call (request server: all handler methods; os-backed server: ReadAt/WriteAt/Stat/Readdir/Chmod of the opened files) is held on a gate and the harness opens the gates in a chosen order: ALL feasible completion orders for the small programs, PRNG-chosen orders (uniform, fifo, lifo, earliest-held-longest) for the deep ones, plus un-gated pipelined runs. Big-reply family: servers started with WithAllocator / WithRSAllocator on or off and WithMaxTxPacket / WithRSMaxTxPacket in {default, 65536, 262131, 262132 (longest DATA payload inside / outside an allocator page), 262135, 262136 (DATA reply frame of exactly / one over 256 KiB), 262144, 524288}; five hand-written pipelines per configuration (all completion orders in thorough, the first 6 in quick, on 8 of the 16 configurations) and PRNG pipelines on all 16 in which one request in five has a reply of the largest size: READ of max-tx-1, max-tx, max-tx+1, the page/frame boundary lengths, 300000 and 2^32-1 bytes on a 600000-byte file, READDIR of 120 names of 1400 bytes (request server) / 130 names of 250 bytes (os-backed), REALPATH and READLINK of paths of 131060, 131061 (NAME reply just fits 256 KiB), 131062, 140000, 200000 and 262129 bytes, READLINK of a 4000-byte target, mixed with the ordinary requests. Handles named before their HANDLE reply: both servers number their handles 1, 2, 3 …, so requests (READ, WRITE, FSTAT, FSETSTAT, READDIR, CLOSE) name the number that an OPEN / OPENDIR of the same pipeline is about to be given, one given later, or one never given — behind succeeding and failing OPENs of every kind, each on an object of its own; ten hand-written pipelines (requests sent one by one, so that the READ / WRITE reaches a read/write worker while the command worker is inside the held handler of that OPEN; first 6 / all orders) and PRNG pipelines (one request in four of this family; three in four sent one by one), gated and un-gated. For such a request nothing but the count, id, order and legal type of its reply is judged (the calls it may make on the freshly opened object are logged, never held, never counted); a crash of the server is reported with the case. A case = (server, configuration, program, completion order); non-trivial = at least two calls were held at the same time, a failing request is in the stream, or a reply longer than a default server's longest stands among other replies; distinct by (configuration, options, program shape, read lengths, order)"
 	thorough := c.Tier == "thorough"
 	c02Cfg = gCurCfg(c, "pipe", c02Cfg)
 	modelOK := gProbeModel(c, "c02.run "+c02Cfg+" -")
@@ -1025,6 +1126,14 @@ func checkC02(c *lib.Ctx) {
 		nOrders += len(ords)
 		for k, o := range ords {
 			jobs = append(jobs, gJSON(c02Job{Case: gCase{Prog: p, Mode: "gated", Order: o, Tag: tag}, Orders: len(ords), All: complete, First: k == 0}))
+		}
+	}
+	addAllStaged := func(p gProg, limit int, tag string) {
+		ords, complete := c02Orders(p, limit)
+		nProg++
+		nOrders += len(ords)
+		for k, o := range ords {
+			jobs = append(jobs, gJSON(c02Job{Case: gCase{Prog: p, Mode: "gated", Order: o, Staged: true, Tag: tag}, Orders: len(ords), All: complete, First: k == 0}))
 		}
 	}
 	idStyles := []string{"seq", "rand", "desc", "same"}
@@ -1110,6 +1219,37 @@ func checkC02(c *lib.Ctx) {
 		for k := 0; k < nFree; k++ {
 			p := gen().program(1+c.Rand.Intn(30), idStyles[c.Rand.Intn(4)])
 			jobs = append(jobs, gJSON(c02Job{Case: gCase{Prog: p, Mode: "free", Tag: "ungated"}}))
+		}
+
+		// ---- handles named before their HANDLE reply was received ----
+		{
+			limit, nPred, nPredFree := 6, 70, 30
+			if thorough {
+				limit, nPred, nPredFree = 120, 4000, 1000
+			}
+			for _, p := range c02FixedPred(server) {
+				if thorough {
+					for _, d := range deckRW.all {
+						addAllStaged(c02WithOpt(p, d), limit, "handle-before-reply-fixed")
+					}
+				} else {
+					addAllStaged(c02WithOpt(p, deckRW.next()), limit, "handle-before-reply-fixed")
+					addAllStaged(c02WithOpt(p, deckRW.next()), limit, "handle-before-reply-fixed")
+				}
+			}
+			predGen := func() *c02Gen {
+				g := gen()
+				g.pred = true
+				return g
+			}
+			for k := 0; k < nPred; k++ {
+				p := predGen().program(2+c.Rand.Intn(13), idStyles[c.Rand.Intn(4)])
+				jobs = append(jobs, gJSON(c02Job{Case: gCase{Prog: p, Mode: "gated", Order: c02RandomOrder(p, c.Rand, styles[c.Rand.Intn(len(styles))]), Staged: k%4 != 3, Tag: "handle-before-reply-random-order"}}))
+			}
+			for k := 0; k < nPredFree; k++ {
+				p := predGen().program(2+c.Rand.Intn(29), idStyles[c.Rand.Intn(4)])
+				jobs = append(jobs, gJSON(c02Job{Case: gCase{Prog: p, Mode: "free", Tag: "handle-before-reply-ungated"}}))
+			}
 		}
 
 		// ---- servers with non-default options, requests with replies of the largest size ----
